@@ -262,6 +262,25 @@ class FrameReader:
             self.unk("size bytes are not the big-endian bytes 0..1 (or 0&0x7F,1,2) of the header", arg)
             return None
         if last == "from_le_bytes":
+            # opcode bytes: little-endian, directly after the size bytes (2-byte form: header[2..]; 3-byte form: header[3], extra byte[0])
+            if any(x[0] == "zero" or x[2] is not None for x in xs):
+                self.unk("opcode bytes are padded or masked", arg)
+                return None
+            want_len = getattr(self, "op_len", None)
+            if want_len is not None and len(xs) != want_len:
+                self.unk(f"opcode is assembled from {len(xs)} header bytes, this direction uses {want_len}", arg)
+                return None
+            hb = [b for b in p.header_bufs]
+            if p.large:
+                ok = len(xs) == 2 and len(hb) >= 2 and xs[0][:2] == (hb[0], 3) and xs[1][:2] == (hb[-1], 0) and hb[0] != hb[-1]
+                if not ok:
+                    self.unk("opcode of the 3-byte size form is not [header[3], extra_byte[0]] (little-endian)", arg)
+                    return None
+            else:
+                ok = bool(hb) and all(x[0] == hb[0] and x[1] == 2 + j for j, x in enumerate(xs))
+                if not ok:
+                    self.unk("opcode bytes are not header[2..] in little-endian order", arg)
+                    return None
             return ("op",)
         return None
 
